@@ -266,9 +266,34 @@ func checkC39(c *Ctx, r *Report) {
 			}
 			okUp := true
 			whyUp := ""
+			// the ends: a computed result is what strings.Trim(_, "-") returned, not a later cut of it
+			keyEnds := "sanitizeBucketName: a computed result neither starts nor ends with '-'"
+			okEnds, whyEnds := true, ""
+			for _, ic := range incs {
+				tc, isCall := strip(ic.v).(*ssa.Call)
+				trimmed := false
+				if isCall && calleeName(&tc.Call) == "strings.Trim" && len(tc.Call.Args) == 2 {
+					if cs, ok := constString(tc.Call.Args[1]); ok && cs == "-" {
+						trimmed = true
+					}
+				}
+				if !trimmed {
+					okEnds, whyEnds = false, "value "+describe(ic.v)+" is returned without being trimmed of '-' afterwards: a cut can end on the separator, and S3 bucket names must start and end with a letter or digit"
+				}
+			}
+			if okEnds {
+				r.ok("C39.R2", keyEnds, m.Pos(ret.Pos()), "")
+			} else {
+				r.viol("C39.R2", keyEnds, m.Pos(ret.Pos()), whyEnds)
+			}
 			for _, ic := range incs {
 				if cutAndTrim(ic.v) {
 					continue
+				}
+				if sl, ok := strip(ic.v).(*ssa.Slice); ok && sl.High != nil {
+					if k, ok := constInt(sl.High); ok && k <= 63 {
+						continue
+					}
 				}
 				upper := Guard{cl(atomFn("len(v) <= 63", func(l Lit) bool {
 					k, ok := constInt(l.Y)
